@@ -95,11 +95,17 @@ JClHeader(rec) ==
 JSrcFault(rec) == Checks(IF rec.in.at < 15 THEN "source-fails-in-the-first-15-bytes" ELSE "source-fails-later",
                          << <<rec.reported, "a read error of the source is lost: reading goes on as if nothing had happened">> >>)
 
+\* blanks between a field name and its colon are no part of the name (dpkg: "field name, optional white space, colon")
+JColonBlank(rec) == Checks("blank-before-colon",
+    << <<rec.ok_plain, "the plain document was rejected (harness)">>,
+       <<rec.ok_blank, "a document with blanks between field names and colons was rejected">>,
+       <<rec.ok_blank => rec.paras_blank = rec.paras_plain, "blanks between a field name and its colon change the paragraphs read (they end up in the name)">> >>)
+
 Judge(rec) ==
     CASE rec.ev = "vacc" -> JVacc(rec) [] rec.ev = "archs" -> JArchs(rec) [] rec.ev = "wild" -> JWild(rec)
       [] rec.ev = "byhash" -> JByHash(rec) [] rec.ev = "getdsc" -> JGetDsc(rec) [] rec.ev = "compressor" -> JCompressor(rec)
       [] rec.ev = "decompressor" -> JDecompressor(rec) [] rec.ev = "xzdict" -> JXz(rec) [] rec.ev = "loadfile" -> JLoadFile(rec)
-      [] rec.ev = "filevariants" -> JFileVariants(rec) [] rec.ev = "clheader" -> JClHeader(rec) [] rec.ev = "srcfault" -> JSrcFault(rec)
+      [] rec.ev = "filevariants" -> JFileVariants(rec) [] rec.ev = "clheader" -> JClHeader(rec) [] rec.ev = "srcfault" -> JSrcFault(rec) [] rec.ev = "colonblank" -> JColonBlank(rec)
       [] OTHER -> V(FALSE, "unknown-event", "unknown event")
 
 Init == l \in 1..Len(Trace) /\ verdict = Pending
